@@ -306,6 +306,26 @@ func c06CallGlobal(ctx *build.Context, name string, ops []operand.Op) c06Outcome
 	return c06Observe(ctx, func() { f(ops) })
 }
 
+// c06Sibling maps a fixed-register / fixed-value operand class to the broader class of the same kind and width.
+var c06Sibling = map[string]string{"al": "r8", "cl": "r8", "ax": "r16", "eax": "r32", "rax": "r64", "xmm0": "xmm",
+	"1": "imm8", "3": "imm8", "imm2u": "imm8"}
+
+// c06SameShape: same dynamic Go type and, for registers, physical/virtual alike with the same width.
+func c06SameShape(a, b operand.Op) bool {
+	if fmt.Sprintf("%T", a) != fmt.Sprintf("%T", b) {
+		return false
+	}
+	ra, oka := a.(reg.Register)
+	rb, okb := b.(reg.Register)
+	if oka != okb {
+		return false
+	}
+	if oka {
+		return ra.Kind() == rb.Kind() && ra.Size() == rb.Size() && ra.ID().IsVirtual() == rb.ID().IsVirtual()
+	}
+	return true
+}
+
 // ---------------------------------------------------------------- suspects
 
 // c06Suspects recomputes, in Go and untrusted, the judgements the Lean table
@@ -647,6 +667,28 @@ func init() {
 				nm := 2
 				if *f.tier == "thorough" {
 					nm = 3
+				}
+				// sibling near miss: an operand of a fixed-register / fixed-value class is replaced by another operand
+				// of the SAME kind and width that is not in the class (CL -> BL, AX -> CX, X0 -> X5, $1 -> $2): called
+				// right after the matching sample, so that a memoised form selection keyed by operand kinds is exposed
+				for j := 0; j < fm.Arity && j < len(fm.Operands) && j < len(ops); j++ {
+					wide, ok := c06Sibling[typeName(fm.Operands[j].Type)]
+					if !ok {
+						continue
+					}
+					var cands []operand.Op
+					for _, op := range u.byClass[wide] {
+						if c06Match(uint8(fm.Operands[j].Type), op) == "0" && c06SameShape(op, ops[j]) {
+							cands = append(cands, op)
+						}
+					}
+					if len(cands) == 0 {
+						continue
+					}
+					mut := append([]operand.Op(nil), ops...)
+					mut[j] = pick(r, cands)
+					tuplesHere = append(tuplesHere, mut)
+					kinds = append(kinds, "sibling")
 				}
 				for q := 0; q < nm; q++ {
 					mut := append([]operand.Op(nil), ops...)
